@@ -8,8 +8,8 @@ ID = "C01"
 COQ_IMPORT = "Corr.CNodes"
 COQ_CASE_TYPE = "g_case"
 COQ_CHECK = "g_check"
-THEOREMS = ["c01_reader_inverts_writer", "c01_read_is_from_dict_of_normalised", "c01_edges_preserved", "c01_strings_preserved", "c01_nothing_invented", "c01_ints_keep_value", "c01_int_sequences_keep_value"]
-PROOF_FILES = ["Proofs/SerialProofs.v"]
+THEOREMS = ["c01_reader_inverts_writer", "c01_read_is_from_dict_of_normalised", "c01_edges_preserved", "c01_strings_preserved", "c01_nothing_invented", "c01_ints_keep_value", "c01_int_sequences_keep_value", "c01_file_round_trip", "c01_file_round_trip_canon"]
+PROOF_FILES = ["Proofs/RoundTripProofs.v", "Proofs/SerialProofs.v", "Proofs/DictProofs.v", "Proofs/SimProofs.v"]
 RULE = ("random graphs over all 17 primitives + nested NIRGraph (depth 0..3, 0..7 nodes per level), edge multisets "
         "incl. cyclic, parallel, dangling, dotted; names from a unicode pool (multi-byte, spaces, newline, 300 chars, "
         "reserved words) plus a malformed stream ('/', NUL: write must reject); parameter arrays of all 14 dtypes, "
@@ -24,7 +24,7 @@ def gen(rng, tier):
     cases = []
     for i in range(N):
         r = S.serial_graph(rng, depth=rng.choice([0, 1, 2, 3]), max_nodes=rng.choice([2, 4, 7]),
-                           bad_names=(rng.random() < 0.08))
+                           bad_names=(rng.random() < 0.08), shared=(rng.random() < 0.15))
         cases.append({"kind": "graph", "recipe": V.enc_recipe(r)})
     return cases
 
